@@ -28,3 +28,11 @@ Print Assumptions C12_after_clearing.
 Theorem C12_sync_invariant : forall c idna_raw s o, is_sp_op o = true -> hstate_synced c s -> hstate_synced c (fst (hstep idna_raw c s o)).
 Proof. exact hstep_synced. Qed.
 Print Assumptions C12_sync_invariant.
+
+(* ---------- object-graph model: a SearchParams handle obtained earlier stays the URL's handle ---------- *)
+From Verif Require Import Model.Heap Proofs.HeapProofs.
+
+Theorem C12_handle_stability : forall idna_raw c ops h h' a sl, Sep h -> h_run idna_raw c h ops = Some h' ->
+  sp_of h a = Some sl -> sp_of h' a = Some sl /\ (exists s, rd (hs h') sl = Some s /\ s_owner s = Some a).
+Proof. exact handle_stability. Qed.
+Print Assumptions C12_handle_stability.
